@@ -290,10 +290,17 @@ fn judge(cols: &[&str], exp: &Rb, got: Result<Result<Rb, Fail>, guard::PanicInfo
 struct Out {
     o: CaseOut,
     sigs: Vec<String>,
+    /// `Some((side, shape))` for the minimal witness sets of understood defects: everything such a
+    /// set trips is reported under the one signature `<side>-witness[<shape>]`
+    witness: Option<(String, String)>,
 }
 
 impl Out {
     fn violation(&mut self, sig: String, desc: String, witness: Value) {
+        let (sig, desc) = match &self.witness {
+            Some((side, shape)) if !sig.contains("-writer-compression-mismatch:") => (format!("{side}-witness[{shape}]"), format!("[{sig}] {desc}")),
+            _ => (sig, desc),
+        };
         // one witness per signature and case is enough
         if self.sigs.contains(&sig) {
             self.o.count("violations_suppressed_same_sig_same_case", 1);
@@ -348,7 +355,7 @@ fn first_delivery(bytes: &[u8], sizes: &Sizes) -> usize {
 }
 
 fn run_set(d: &dyn Driver, ctx: &Ctx, idx: u64, seed: u64) -> CaseOut {
-    let mut out = Out { o: CaseOut::new(), sigs: Vec::new() };
+    let mut out = Out { o: CaseOut::new(), sigs: Vec::new(), witness: d.class().strip_prefix("witness-").map(|s| (d.side().to_string(), s.to_string())) };
     out.o.evaluations = 0;
     let side = d.side();
     let exp = d.expected();
@@ -456,13 +463,16 @@ fn run_set(d: &dyn Driver, ctx: &Ctx, idx: u64, seed: u64) -> CaseOut {
             }
         }
 
-        // short first windows
-        for (label, sizes) in windows(seed ^ f as u64, ctx.quick()) {
+        // short first windows (not on the minimal witness sets: they exist for one shape only)
+        let windows = if out.witness.is_some() { Vec::new() } else { windows(seed ^ f as u64, ctx.quick()) };
+        for (label, sizes) in windows {
             let w0 = first_delivery(&bytes, &sizes);
             out.o.evaluations += 1;
             out.o.count("detection_runs", 1);
             out.o.count("detection_runs_chunked", 1);
-            let limit = if d.bgzf(f) { first_block_size(&bytes).min(8192).min(bytes.len()) } else { d.raw_magic_len(f).min(bytes.len()) };
+            // judged on the stream as it is (a writer that ignored the requested compression is reported separately)
+            let is_gz = bytes.starts_with(&[0x1f, 0x8b]);
+            let limit = if is_gz { first_block_size(&bytes).min(8192).min(bytes.len()) } else { d.raw_magic_len(f).max(if d.bgzf(f) { 4 } else { 0 }).min(bytes.len()) };
             if w0 < limit {
                 out.o.count(&format!("short_first_window_runs[{side}/{name}]"), 1);
             }
@@ -480,7 +490,7 @@ fn run_set(d: &dyn Driver, ctx: &Ctx, idx: u64, seed: u64) -> CaseOut {
                 Verdict::Failed(stage, err) => format!("fails at {stage}: {err}"),
                 Verdict::Differs(_, detail) => detail,
             };
-            let class = if d.bgzf(f) {
+            let class = if is_gz {
                 if w0 < 2 {
                     "magic-split"
                 } else if w0 < limit {
@@ -567,6 +577,9 @@ fn run_set(d: &dyn Driver, ctx: &Ctx, idx: u64, seed: u64) -> CaseOut {
     // ---- path based builders: the writer picks the pair from the extension, the reader from the content
     for f in 0..n {
         let Some(ext) = d.path_ext(f) else { continue };
+        if out.witness.is_some() {
+            continue;
+        }
         if files[f].is_none() {
             continue;
         }
@@ -673,8 +686,65 @@ fn run_case(ctx: &Ctx, idx: u64, c: &Case) -> CaseOut {
     }
 }
 
+/// Debug aid (`bisect=<side>:<class>:<seed>:<fmt index>`): writes every record of a set on its own
+/// and prints the ones that do not read back.
+fn bisect(spec: &str) {
+    let p: Vec<&str> = spec.split(':').collect();
+    let (side, class, seed, f) = (p[0], p[1], p[2].parse::<u64>().unwrap(), p[3].parse::<usize>().unwrap());
+    let tgt: Option<usize> = p.get(4).map(|t| t.parse().unwrap());
+    if side == "variant" {
+        let set = var::make_set(class, seed);
+        for (i, r) in set.recs.iter().enumerate() {
+            let mut one = set.clone();
+            one.recs = vec![r.clone()];
+            let d = VarDriver::new(one).unwrap();
+            let res = guard::catch(|| {
+                let b = d.write(f)?;
+                let b = match tgt {
+                    Some(t) => d.convert(&b, t)?,
+                    None => b,
+                };
+                d.read_generic(&mut &b[..])
+            });
+            let bad = match &res {
+                Ok(Ok(rb)) => rb.lines != d.exp.lines,
+                _ => true,
+            };
+            if bad {
+                println!("record #{i}: expected {:?}\n   got {:?}", d.exp.lines, res.map_err(|p| p.message));
+            }
+        }
+    } else {
+        let set = aln::make_set(class, seed);
+        for (i, r) in set.recs.iter().enumerate() {
+            let mut one = set.clone();
+            one.recs = vec![r.clone()];
+            let d = AlnDriver::new(one).unwrap();
+            let res = guard::catch(|| {
+                let b = d.write(f)?;
+                let b = match tgt {
+                    Some(t) => d.convert(&b, t)?,
+                    None => b,
+                };
+                d.read_generic(&mut &b[..])
+            });
+            let bad = match &res {
+                Ok(Ok(rb)) => rb.lines != d.exp.lines,
+                _ => true,
+            };
+            if bad {
+                println!("record #{i}: expected {:?}\n   got {:?}", d.exp.lines, res.map_err(|p| p.message));
+            }
+        }
+    }
+}
+
 fn main() {
     let ctx = Ctx::from_args();
+    if let Some(spec) = ctx.param("bisect") {
+        bisect(spec);
+        return;
+    }
     let ctx = vcore::cases::replay_request(&ctx).map(|r| r.1).unwrap_or(ctx);
     let mut rep = Report::new(
         "case = one generated record set (side alignment/variant, class, seed) restricted to the common data model; per set every \
